@@ -75,6 +75,20 @@ Inductive res :=
 | RCycle (chain : list oid)                                   (* UnresolvableCyclicDependency *)
 | RFuel.
 
+(* Entity._save_principal_objects_: for every referenced object that is still 'created': val._save_(dependent_objects) *)
+Fixpoint principals (sv : oid -> list obj -> list stmt -> list oid -> res) (ts : list oid)
+                    (q : list obj) (out : list stmt) (deps : list oid) : res :=
+  match ts with
+  | [] => ROk q out deps
+  | t :: ts' =>
+      if is_created q t
+      then match sv t q out deps with
+           | ROk q' out' deps' => principals sv ts' q' out' deps'
+           | e => e
+           end
+      else principals sv ts' q out deps
+  end.
+
 (* obj._save_(dependent_objects) *)
 Fixpoint save (fuel : nat) (o : oid) (q : list obj) (out : list stmt) (deps : list oid) : res :=
   match fuel with
@@ -87,18 +101,7 @@ Fixpoint save (fuel : nat) (o : oid) (q : list obj) (out : list stmt) (deps : li
           | Deleted => ROk (drop q o) (out ++ [SDelete o]) deps
           | st =>
               if mem o deps then RCycle (deps ++ [o]) else
-              let fix principals (ts : list oid) (q : list obj) (out : list stmt) (deps : list oid) : res :=
-                  match ts with
-                  | [] => ROk q out deps
-                  | t :: ts' =>
-                      if is_created q t
-                      then match save f t q out deps with
-                           | ROk q' out' deps' => principals ts' q' out' deps'
-                           | e => e
-                           end
-                      else principals ts' q out deps
-                  end in
-              match principals (targets ob) q out (deps ++ [o]) with
+              match principals (save f) (targets ob) q out (deps ++ [o]) with
               | ROk q' out' deps' =>
                   ROk (drop q' o) (out' ++ [match st with Created => SInsert o (o_cols ob) | _ => SUpdate o (o_cols ob) end]) deps'
               | e => e
